@@ -170,6 +170,22 @@ Theorem C08_cap_before_expansion : v_cap_first impl = true -> forall s,
   expand impl s = Err EMaxRuns -> (expand_cost impl s <= spec_size s)%N.
 Proof. intros G s. apply cap_before_expansion. exact G. Qed.
 
+(* sizes are computed arithmetically and the cap is tested before any run is built on the current tree
+   (repaired by fix commit 7b147bf): hard obligation, and the unconditional statement *)
+Lemma gen_cap_first : v_cap_first impl = true.
+Proof. reflexivity. Qed.
+Theorem C08_cap_before_expansion_all : forall s,
+  expand impl s = Err EMaxRuns -> (expand_cost impl s <= spec_size s)%N.
+Proof. exact (C08_cap_before_expansion gen_cap_first). Qed.
+(* ... in fact nothing at all is built for a rejected or empty plan *)
+Theorem C08_cap_rejection_builds_nothing : forall s,
+  expand impl s = Err EMaxRuns -> expand_cost impl s = 0%N.
+Proof.
+  intros s H. unfold expand_cost. rewrite gen_cap_first.
+  destruct (total impl s) as [t|e] eqn:T; [|reflexivity].
+  rewrite (expand_cap_inv impl s t H T). reflexivity.
+Qed.
+
 Theorem C08_cap_before_expansion_refuted_when : v_cap_first impl = false ->
   exists s, wf_spec s = true /\ expand impl s = Err EMaxRuns /\ (spec_size s < expand_cost impl s)%N.
 Proof. exact (cap_before_expansion_refuted_when impl). Qed.
@@ -246,6 +262,8 @@ Example ex_eager_cost_grows :
 Proof. reflexivity. Qed.
 
 Print Assumptions C08_cap_rejects_all.
+Print Assumptions C08_cap_before_expansion_all.
+Print Assumptions C08_cap_rejection_builds_nothing.
 Print Assumptions C08_keys_sorted.
 Print Assumptions C08_product_mixed_radix.
 Print Assumptions C08_digits_mixed_radix.
